@@ -134,7 +134,13 @@ class Run:
             self.evaluations += n
 
     def nontriv(self, key):
-        self.nontrivial.add(key)
+        def freeze(x):                      # keys rebuilt from a replay file carry lists where the generators use tuples
+            if isinstance(x, (list, tuple)):
+                return tuple(freeze(y) for y in x)
+            if isinstance(x, dict):
+                return tuple(sorted((k, freeze(v)) for k, v in x.items()))
+            return x
+        self.nontrivial.add(freeze(key))
 
     def sample(self, s, limit=6):
         if len(self.samples) < limit:
@@ -147,8 +153,32 @@ class Run:
         return total_s - (time.time() - self.t0)
 
 
+def jdefault(x):
+    """what JSON cannot carry: bytes travel as {'__b': hex} (sandbox.build_tree reads that back), the rest as its repr"""
+    if isinstance(x, (bytes, bytearray)):
+        return {'__b': bytes(x).hex()}
+    if isinstance(x, (set, frozenset)):
+        return sorted(x, key=repr)
+    return repr(x)
+
+
 def jdump(obj):
-    return json.dumps(obj, ensure_ascii=True, sort_keys=True, default=repr)
+    return json.dumps(obj, ensure_ascii=True, sort_keys=True, default=jdefault)
+
+
+def unesc(s):
+    """inverse of esc (for replay files)"""
+    if isinstance(s, str) and s.startswith('hex:'):
+        try:
+            return bytes.fromhex(s[4:])
+        except ValueError:
+            return s
+    if isinstance(s, str) and s.startswith('cp:'):
+        try:
+            return ''.join(chr(int(h, 16)) for h in s[3:].split('.')) if s[3:] else ''
+        except ValueError:
+            return s
+    return s
 
 
 def esc(s):
